@@ -365,6 +365,84 @@ func checkC18(c *Ctx, w *World) {
 		c.check(okIdx, "C18.header", "parseT4T7Latency: no unguarded index", p.pos(parse.Pos()), "slices are indexed only by range counters", "a slice is indexed without a bound")
 	}
 
+	// ---- C18.header (call sites): the first argument of the parser is the call's HEADER metadata, the second its TRAILER
+	{
+		var classify func(v ssa.Value, d int) string
+		classify = func(v ssa.Value, d int) string {
+			v = stripConv(v)
+			if cv := cellValue(v); cv != v {
+				v = stripConv(cv)
+			}
+			switch x := v.(type) {
+			case *ssa.Call:
+				if x.Call.IsInvoke() && x.Call.Method.Name() == "Trailer" {
+					return "trailer"
+				}
+			case *ssa.Extract:
+				if call, ok := x.Tuple.(*ssa.Call); ok && call.Call.IsInvoke() && call.Call.Method.Name() == "Header" && x.Index == 0 {
+					return "header"
+				}
+			case *ssa.UnOp:
+				if al, ok := x.X.(*ssa.Alloc); ok && x.Op == token.MUL {
+					kind := ""
+					for _, r := range *al.Referrers() {
+						if call, ok := r.(*ssa.Call); ok {
+							switch n := calleeOf(&call.Call).Name(); {
+							case strings.HasSuffix(n, "grpc.Header"):
+								kind = "header"
+							case strings.HasSuffix(n, "grpc.Trailer"):
+								kind = "trailer"
+							}
+						}
+					}
+					return kind
+				}
+			case *ssa.Parameter:
+				if d > 2 {
+					return ""
+				}
+				fn := x.Parent()
+				idx := -1
+				for i, q := range fn.Params {
+					if q == x {
+						idx = i
+					}
+				}
+				kind, n := "", 0
+				for _, g := range p.Funcs {
+					eachInstr(g, func(in ssa.Instruction) {
+						call, ok := in.(*ssa.Call)
+						if !ok || !isCallTo(call, fn, p) || idx < 0 || idx >= len(call.Call.Args) {
+							return
+						}
+						n++
+						k := classify(call.Call.Args[idx], d+1)
+						if n == 1 {
+							kind = k
+						} else if k != kind {
+							kind = "mixed"
+						}
+					})
+				}
+				return kind
+			}
+			return ""
+		}
+		nsites := 0
+		for _, g := range p.Funcs {
+			eachInstr(g, func(in ssa.Instruction) {
+				call, ok := in.(*ssa.Call)
+				if !ok || !isCallTo(call, parse, p) || len(call.Call.Args) < 2 {
+					return
+				}
+				nsites++
+				k0, k1 := classify(call.Call.Args[0], 0), classify(call.Call.Args[1], 0)
+				c.check(k0 == "header" && k1 == "trailer", "C18.header", "parseT4T7Latency called from "+fname(g)+": (header, trailer)", p.ipos(call), "the parser is given the call's header metadata first and its trailer metadata second", fmt.Sprintf("the parser's arguments are (%s, %s), expected (header, trailer): the preference of the header over the trailer is reversed or lost", orQ(k0), orQ(k1)))
+			})
+		}
+		c.floor("C18.header:sites", nsites, 2)
+	}
+
 	// ---- C18.regex
 	nameFlags := []string{"project", "opsProject", "instance_name", "database_name", "instanceConfig"}
 	validated := map[string]bool{}
@@ -845,6 +923,13 @@ func checkC18(c *Ctx, w *World) {
 }
 
 // ifOn returns the If instruction controlled directly by v.
+func orQ(s string) string {
+	if s == "" {
+		return "?"
+	}
+	return s
+}
+
 // isErrorResultOf: v is the error result of a call of the named method / function.
 func isErrorResultOf(v ssa.Value, name string) bool {
 	ex, ok := stripConv(v).(*ssa.Extract)
